@@ -21,7 +21,7 @@ RULE = ("two case kinds. params: a parameter class of draw_params.py (MPDrawPara
         "trajectory / with set-based prediction incl. interval time steps and holes, phantom, environment; shapes rectangle, "
         "circle, polygon, group; exact and uncertain positions; signal series) + 0..2 planning problems, drawn with a parameter "
         "setting: window begin chosen around every initial/final time step (before, inside, after the horizons), end = begin, "
-        "begin+1, begin+3, another horizon point, begin+40 or begin-1; in ~45% of the cases 1..3 earlier frames ran on the same renderer: render(keep_static_artists True/False) frames, create_video-style frames (remove_dynamic, clear, draws, render_dynamic), draws that raise half-way followed by clear(), whole scenario or obstacles only, fresh parameter objects or one shared object whose window is re-set, the scenario changed in place between frames (obstacle removed / added, prediction dropped / replaced, trajectory re-assigned, initial state re-set), often re-drawing the same step; the selected frame is drawn through one of six public entry points (scenario.draw, draw_scenario, renderer's own parameters with draw_params=None, network + draw_list, per object with its sub-group, list of parameter objects), on a renderer constructed with / without draw_params, plot_limits (flat, nested, 'auto'), focus_obstacle, figsize, rendered with or without a file name, after read-only queries; lattice cases also set style values (colours, widths, z-orders, opacities; int where float is usual); value classes: obstacle id 0, off-centre / rotated obstacle shapes, shuffled occupancy sets, 3-D lanelet vertices, signs / lights without position, inactive cycles, obstacle history; mode 'plain' = shapes on, icons/signals/trajectories/"
+        "begin+1, begin+3, another horizon point, begin+40 or begin-1; in ~45% of the cases 1..3 earlier frames ran on the same renderer: render(keep_static_artists True/False) frames, create_video-style frames (remove_dynamic, clear, draws, render_dynamic), draws that raise half-way followed by clear(), after EVERY shown frame (earlier ones too) the obstacle patch collections that are on the axes (ax.collections) are observed and judged against the occupancies of that frame's own window, whole scenario or obstacles only, fresh parameter objects or one shared object whose window is re-set, the scenario changed in place between frames (obstacle removed / added, prediction dropped / replaced, trajectory re-assigned, initial state re-set), often re-drawing the same step; the selected frame is drawn through one of six public entry points (scenario.draw, draw_scenario, renderer's own parameters with draw_params=None, network + draw_list, per object with its sub-group, list of parameter objects), on a renderer constructed with / without draw_params, plot_limits (flat, nested, 'auto'), focus_obstacle, figsize, rendered with or without a file name, after read-only queries; lattice cases also set style values (colours, widths, z-orders, opacities; int where float is usual); value classes: obstacle id 0, off-centre / rotated obstacle shapes, shuffled occupancy sets, 3-D lanelet vertices, signs / lights without position, inactive cycles, obstacle history; mode 'plain' = shapes on, icons/signals/trajectories/"
         "extra occupancies/history off (other flags random), mode 'lattice' = every boolean field of the 87 nested groups "
         "flipped with probability 0/0.1/0.5/0.9, history steps, id filters (none, empty, subset, superset, unknown ids) for "
         "lanelets, planning problems, traffic signs. Positions, orientations and velocities of obstacle states are exact "
